@@ -2,7 +2,7 @@ HOOK_COMMITS = ['c1c434b', '878b954']
 NOTES = ('All checks are driven by bin/check <ID> --tier quick|thorough; exit 0/1/2 as described in DESIGN.md 2.4. '
          'known_findings.json lists recorded defects and fixed ones.')
 _pending = 'check not built yet in this revision (see DESIGN.md); will be claimed when its specification and harness exist'
-for _p in ['C02','C03','C04','C05','C06','C07','C08','C10','C11','C13','C19']:
+for _p in ['C02','C03','C04','C05','C06','C07','C08','C10','C11','C13']:
     NA[_p] = _pending
 NA['C01'] = ('power balance needs numerical integration of the reported pattern over the sphere and a 1.5 % physical '
              'tolerance of the true kernel: numeric accuracy with no discrete content, nothing a TLA+ specification can decide (DESIGN.md section 5)')
@@ -100,3 +100,15 @@ check('C18', 'model_checking',
       'not available). Models come from a seeded generator over 12 geometry families, 6 media forms, 8 complex voltages, impedance / Laplace / '
       'distributed loads, versions 9/12/13 and all menu sub-dialogues.',
       'batched TLC trace validation against BasicDialogue.tla + decode/compare/rebuild', 'DESIGN.md 4 C18, 3.6')
+
+check('C19', 'other',
+      'Structure: every report (API reports of four archetypes and five junction / grounded / multi-object structures with every option set, '
+      'and frequency sweeps through main) is tokenised into block / row tokens and compared by TLC with Expected(M) of spec/ReportGrammar.tla, '
+      'M being the abstract model projected from the real object (one geometry row per pulse in its object block, one source block per source, '
+      'one load line per loaded pulse with degree+1 coefficient lines, current blocks with J/E lines and numbered rows, far-field rows, one E and '
+      'one H block per near-field point, independent part once and dependent part per sweep step). Values: every number of every report is read '
+      'back from the text and compared with the value it reports (5e-6 relative, +1e-6 absolute for fixed-point fields, %.3E fields 5e-4, %.2f '
+      'fields 0.005), magnitude / phase columns against real / imaginary; synthetic currents, fields, loads and powers drive magnitudes 1e-30 .. '
+      '1e12 of both signs with rounding-boundary mantissas through every field; the number formatter is swept over 43 decades.',
+      'Level other: TLC decides the structure only; the numeric read-back is decided by the projection (harness/c19.py, harness/report.py).',
+      'batched TLC comparison with ReportGrammar.tla + numeric read-back by the report parser', 'DESIGN.md 4 C19')
